@@ -16,6 +16,9 @@ import (
 	"strconv"
 	"strings"
 	"unicode"
+
+	"verif/harness/dump"
+	"verif/harness/tool"
 )
 
 func die(format string, a ...any) {
@@ -571,4 +574,40 @@ func main() {
 	flag.Parse()
 	writeExtracted(*repo, *out)
 	writeUnicode(*out)
+	writeFixtureDumps(*repo, *out)
+}
+
+// writeFixtureDumps: the dumps of the repository's own use-case fixtures as Gallina terms, so that
+// the model is evaluated on them inside Coq (non-vacuity examples of the pipeline theorems).
+func writeFixtureDumps(repo, out string) {
+	files, _ := filepath.Glob(filepath.Join(repo, "tests", "fixtures", "usecase", "*", "setup.go"))
+	sort.Strings(files)
+	var sb strings.Builder
+	sb.WriteString("(** FixtureDumps.v — GENERATED by harness/cmd/translate from /repo/tests/fixtures/usecase on every run. Do not edit. *)\n")
+	sb.WriteString("From Coq Require Import String List NArith.\nFrom Cvg Require Import Base.\nImport ListNotations.\nOpen Scope N_scope.\n\n")
+	var names []string
+	for _, f := range files {
+		abs, _ := filepath.Abs(f)
+		res, err := dump.Load(abs, strings.TrimSuffix(abs, ".go")+".gen.go", tool.BaseEnv())
+		if err != nil || res.LoadFailed != "" || len(res.OutOfModel) > 0 {
+			continue
+		}
+		name := "fx_" + filepath.Base(filepath.Dir(abs))
+		names = append(names, name)
+		sb.WriteString("Definition " + name + " : sexp :=\n  ")
+		res.Dump.CoqTerm(&sb)
+		sb.WriteString(".\n\n")
+	}
+	sb.WriteString("Definition fixtures : list (string * sexp) :=\n  [")
+	for i, n := range names {
+		if i > 0 {
+			sb.WriteString("; ")
+		}
+		sb.WriteString("(\"" + n + "\"%string, " + n + ")")
+	}
+	sb.WriteString("].\n")
+	if err := os.WriteFile(filepath.Join(out, "FixtureDumps.v"), []byte(sb.String()), 0o644); err != nil {
+		fmt.Fprintln(os.Stderr, err)
+		os.Exit(1)
+	}
 }
